@@ -91,6 +91,9 @@ def gen_program(rng, D, maxlen):
         elif op == "had":
             fk = str(rng.choice(("general", "rank1", "linear", "constant", "measure")))
             R2 = R if rng.integers(0, 2) else 1
+            if R == 1 and rng.integers(0, 2):
+                R2 = int(rng.choice([2, 3]))  # single-component measure broadcast over the factor
+                R = R2
             ops.append(("had", fk, R2, bool(rng.integers(0, 2))))
             is_pdf = False
         elif op == "slice":
